@@ -1056,6 +1056,16 @@ class RecipWorld(CtorWorld):
             return LenV(args[0].lo, args[0].hi)
         return super().call_builtin(ip, name, args, kwargs, node)
 
+    def load_attr(self, ip, obj, attr, node):
+        if isinstance(obj, IntervalSetV):
+            return BoundMethod(obj, attr)
+        return super().load_attr(ip, obj, attr, node)
+
+    def call_method(self, ip, obj, name, args, kwargs, node):
+        if isinstance(obj, IntervalSetV) and name == "intersection" and len(args) == 1 and isinstance(args[0], (IntervalSetV, RangeV)) and not kwargs:
+            return self.binop(ip, IntervalSetV(obj.lo, obj.hi), ast.BitAnd(), args[0], node)
+        return super().call_method(ip, obj, name, args, kwargs, node)
+
     def binop(self, ip, a, op, b, node):
         if isinstance(op, ast.BitAnd) and isinstance(a, (IntervalSetV, RangeV)) and isinstance(b, (IntervalSetV, RangeV)):
             lo = a.lo if ip.cmp_int(a.lo, b.lo, ">=", node) else b.lo
